@@ -1,0 +1,20 @@
+//go:build verif
+
+package types
+
+// VerifOpen is a read-only observer for the verification harness: the id of the
+// registered transaction ("" if none) and whether its rollback timer is armed.
+func (t *TransactionManager) VerifOpen() (id string, armed bool) {
+	t.tmMutex.Lock()
+	defer t.tmMutex.Unlock()
+	if t.transaction == nil {
+		return "", false
+	}
+	tr := t.transaction
+	if tr.timer != nil {
+		tr.timer.doneMutex.Lock()
+		armed = tr.timer.done != nil
+		tr.timer.doneMutex.Unlock()
+	}
+	return tr.transactionId, armed
+}
